@@ -34,6 +34,7 @@ pub fn explorer_plan(prop: &str) -> Option<Plan> {
         "C01" => {
             p.checks = Checks { forest: true, decode: true, build_must_succeed: true, termination: true, accuracy: true, ..Default::default() };
             p.rounds = (2, 6);
+            p.p_bulk = 0.05;
             Plan {
                 profile: p,
                 cases: (10000, 160000),
@@ -47,6 +48,7 @@ pub fn explorer_plan(prop: &str) -> Option<Plan> {
             p.queries_per_build = 5;
             p.rounds = (1, 4);
             p.max_items = 300;
+            p.p_bulk = 0.05;
             Plan {
                 profile: p,
                 cases: (8000, 120000),
@@ -88,6 +90,7 @@ pub fn explorer_plan(prop: &str) -> Option<Plan> {
         "C05" => {
             p.checks = Checks { store: true, ..Default::default() };
             p.values = vec![Values::AllBits, Values::AllBits, Values::Grid];
+            p.p_variant_overwrite = 0.12;
             p.p_append = 0.08;
             p.p_clear = 0.02;
             p.p_midcommit = 0.05;
